@@ -319,6 +319,14 @@ func TestC18(t *testing.T) {
 			sc.Preview = rapid.IntRange(1, len(sc.File.Body)).Draw(rt, "npreview")
 			r.Class("sets_with_fragment_previews")
 		}
+		if sc.Split == 0 && rapid.IntRange(0, 4).Draw(rt, "anonfirst") == 2 {
+			// one of the packages is first only imported for its side effects (a blank import), the File is
+			// rendered, and the code that refers to the package arrives afterwards
+			sc.File.Ops = append(sc.File.Ops, recipe.FileOp{Op: "Anon", Args: []recipe.Text{recipe.Text(rapid.SampledFrom(sc.Paths).Draw(rt, "anonfirstpath"))}})
+			sc.Split = len(sc.File.Ops) + 1
+			sc.LateBody = len(sc.File.Body)
+			r.Class("sets_with_blank_import_rendered_before_the_code_arrives")
+		}
 		if collide {
 			r.Class("colliding_std_names")
 			r.NonTrivial(recipe.JSON(sc))
